@@ -72,7 +72,6 @@ ASSUMPTIONS = [
 BUDGET_S = {"quick": 150, "thorough": 1500}
 
 COST_CAP = 600000
-DEFAULT = (16384, 16, 1, 16, 24)
 B64 = "ABCDEFGHIJKLMNOPQRSTUVWXYZabcdefghijklmnopqrstuvwxyz0123456789+/"
 B64B = B64.encode()
 
@@ -82,14 +81,14 @@ def plan(tier):
     specs = []
     if tier == "quick":
         for i in range(6):
-            specs.append({"part": "pw", "n": 60, "i": i})
+            specs.append({"part": "pw", "n": 35, "i": i})
         specs.append({"part": "enum", "bases": 3, "depth": 4, "i": 0})
         for i in range(4):
-            specs.append({"part": "corrupt", "base": "lib", "n": 900, "i": i})
+            specs.append({"part": "corrupt", "base": "lib", "n": 500, "i": i})
         for i in range(2):
-            specs.append({"part": "corrupt", "base": "cheap", "n": 10000, "i": i})
+            specs.append({"part": "corrupt", "base": "cheap", "n": 5000, "i": i})
         for i in range(3):
-            specs.append({"part": "struct", "n": 10000, "i": i})
+            specs.append({"part": "struct", "n": 5000, "i": i})
     else:
         for i in range(16):
             specs.append({"part": "pw", "n": 400, "i": i})
